@@ -70,7 +70,7 @@ var stackBuf = make([]byte, 1<<18)
 
 // quiesce returns when every goroutine other than the caller is blocked on a channel / mutex / select.
 func quiesce() {
-	for i := 0; ; i++ {
+	for {
 		runtime.Gosched()
 		n := runtime.Stack(stackBuf, true)
 		if n == len(stackBuf) {
@@ -84,9 +84,7 @@ func quiesce() {
 				return
 			}
 		}
-		if i > 2_000_000 {
-			panic("quiesce: goroutines never settle")
-		}
+		// no bound of its own: a system that never settles is reported by hx's no-progress detector
 	}
 }
 
@@ -460,6 +458,60 @@ func (g *treg) deliver(which string) int {
 	return len(fs)
 }
 
+// stimer: the "system" timer mode: a real timer per batcher, written like clocks.SystemTimer (Set: stop the old one,
+// time.AfterFunc; Stop: stop) but counting the timers that are armed and have neither fired nor been stopped, so that the end
+// of a run is established by "every goroutine is blocked and no timer is armed" instead of by waiting for a while.
+type sreg struct {
+	mu    sync.Mutex
+	armed int
+}
+type stimer struct {
+	reg *sreg
+	cur *scur
+}
+type scur struct {
+	t    *time.Timer
+	done bool // fired or stopped (under reg.mu)
+}
+
+func (t *stimer) stopLocked() {
+	if c := t.cur; c != nil && !c.done {
+		c.t.Stop()
+		c.done = true // if the callback is starting right now it finds done set and does nothing: exactly a Stop in time
+		t.reg.armed--
+	}
+	t.cur = nil
+}
+func (t *stimer) Set(d time.Duration, do func()) {
+	t.reg.mu.Lock()
+	defer t.reg.mu.Unlock()
+	t.stopLocked()
+	c := &scur{}
+	t.reg.armed++
+	c.t = time.AfterFunc(d, func() {
+		t.reg.mu.Lock()
+		if c.done {
+			t.reg.mu.Unlock()
+			return
+		}
+		c.done = true
+		t.reg.armed--
+		t.reg.mu.Unlock()
+		do() // this goroutine is visible to the quiescence barrier from here on
+	})
+	t.cur = c
+}
+func (t *stimer) Stop() {
+	t.reg.mu.Lock()
+	t.stopLocked()
+	t.reg.mu.Unlock()
+}
+func (g *sreg) pending() int {
+	g.mu.Lock()
+	defer g.mu.Unlock()
+	return g.armed
+}
+
 // drain: from now on every time-out expires and is delivered at once; everything armed or committed so far too.
 func (g *treg) drain() {
 	g.mu.Lock()
@@ -597,7 +649,6 @@ func (r *reader) ReadEvents() ([][]byte, error) {
 }
 func (r *reader) AssignSplits(splits []*workerpb.SourceSplit) error {
 	// runs on the goroutine of processEvents
-	r.sr.VerifSetWatermarkTicks(r.ticks)
 	return nil
 }
 func (r *reader) Checkpoint() [][]byte {
@@ -645,7 +696,6 @@ type observed struct {
 	FailedWith string    `json:"run_failed_with,omitempty"`
 	ExtraReads int       `json:"reads_after_end_of_input"`
 	Races      int       `json:"select_races"`
-	TimedOut   bool      `json:"timed_out"`
 }
 
 func runCase(p params, ops []opJ) (*observed, error) {
@@ -676,7 +726,8 @@ func runCase(p params, ops []opJ) (*observed, error) {
 	default:
 		return nil, fmt.Errorf("bad timer mode %q", p.Timer)
 	}
-	sr := sourcerunner.New(sourcerunner.NewParams{
+	var sr *sourcerunner.SourceRunner
+	sr = sourcerunner.New(sourcerunner.NewParams{
 		Host:        "h",
 		UserHandler: h,
 		Job:         fjob{rd: rd},
@@ -686,8 +737,14 @@ func runCase(p params, ops []opJ) (*observed, error) {
 			fmt.Sscanf(node.Id, "%d", &i)
 			return fops[i]
 		},
-		SourceReaderFactory: func(*jobconfigpb.Source) connectors.SourceReader { return rd },
-		EventBatching:       bp,
+		SourceReaderFactory: func(*jobconfigpb.Source) connectors.SourceReader {
+			// HandleDeploy calls this after it created the 200 ms wall-clock watermark ticker and before it starts the
+			// goroutine of processEvents: replacing the ticker here (same goroutine, before the `go`) means no real tick can
+			// ever be taken, however late the harness gets to its next step
+			sr.VerifSetWatermarkTicks(rd.ticks)
+			return rd
+		},
+		EventBatching: bp,
 	})
 	rd.sr = sr
 	ctx, cancel := context.WithCancel(context.Background())
@@ -706,8 +763,12 @@ func runCase(p params, ops []opJ) (*observed, error) {
 		cancel()
 		return nil, err
 	}
-	if p.Timer == "fake" {
+	sysT := &sreg{}
+	switch p.Timer {
+	case "fake":
 		sr.VerifSetBatchTimers(func(i int) clocks.Timer { return ft.mk(i) })
+	case "system":
+		sr.VerifSetBatchTimers(func(i int) clocks.Timer { return &stimer{reg: sysT} })
 	}
 	if err := sr.HandleAssignSplits([]*workerpb.SourceSplit{{SplitId: "s0"}, {SplitId: "s1"}, {SplitId: "s2"}}); err != nil {
 		cancel()
@@ -718,7 +779,6 @@ func runCase(p params, ops []opJ) (*observed, error) {
 	obs := &observed{}
 	eoiSent := false
 	retried, aborted := false, false
-	expected := 0 // events the operators must receive in total
 	for _, op := range ops {
 		switch op.Op {
 		case "read", "eoi": // eoi: the last chunk (possibly empty), returned with ErrEndOfInput; later reads are void
@@ -728,9 +788,6 @@ func runCase(p params, ops []opJ) (*observed, error) {
 			rd.mu.Lock()
 			rd.queued++
 			rd.mu.Unlock()
-			for _, rec := range op.Recs {
-				expected += len(rec.Keys)
-			}
 			eoiSent = op.Op == "eoi"
 			rd.inbox <- &chunk{recs: op.Recs, eoi: eoiSent, err: op.Err}
 		case "readerr": // this read fails: retry = retryable (logged, read again after the back-off), terminal = the loop gives up
@@ -758,7 +815,6 @@ func runCase(p params, ops []opJ) (*observed, error) {
 				rd.mu.Lock()
 				rd.ckptReq++
 				rd.mu.Unlock()
-				expected += p.NOps
 				rd.inbox <- &chunk{nop: true}
 			default:
 				// the previous barrier has not been taken yet (cannot happen with a loop that takes barriers itself): this one
@@ -775,7 +831,6 @@ func runCase(p params, ops []opJ) (*observed, error) {
 			}
 			rd.mu.Unlock()
 			if sent {
-				expected += p.NOps
 				rd.inbox <- &chunk{nop: true}
 			}
 		case "fire": // expire and deliver at once
@@ -807,54 +862,31 @@ func runCase(p params, ops []opJ) (*observed, error) {
 	}
 
 	// end phase: open every gate, let every timer fire, until nothing is pending
-	delivered := func() int {
-		n := 0
-		for _, f := range fops {
-			f.mu.Lock()
-			n += f.count
-			f.mu.Unlock()
-		}
-		return n
-	}
-	t0 := time.Now()
 	h.open()
 	for _, f := range fops {
 		f.open()
 	}
 	ft.drain()
 	quiesce()
-	if retried {
-		// ReadSourceChannel backs off (100 ms * 2^failures, wall clock) before the read after a retryable failure: wait until
-		// the loop has come back for everything the script queued
-		for w := time.Now(); time.Since(w) < 5*time.Second && !runEnded(); {
-			rd.mu.Lock()
-			q := rd.queued
-			rd.mu.Unlock()
-			if q == 0 {
-				break
-			}
-			time.Sleep(2 * time.Millisecond)
-		}
-		quiesce()
-	}
-	if p.Timer == "system" {
-		// real timers: wait (bounded) until everything expected has arrived; a correct pipeline always gets there
-		last := delivered()
-		for last < expected && !aborted && !runEnded() {
-			if time.Since(t0) > 3*time.Second { // 3 s without a single new event
-				obs.TimedOut = true
-				break
-			}
-			time.Sleep(100 * time.Microsecond)
+	// Nothing below has a deadline. Two things in the code under test are driven by the wall clock, and for both the end is
+	// established by the event itself: (1) after a retryable read failure ReadSourceChannel backs off (100 ms * 2^failures):
+	// wait until the loop has come back for every chunk the script queued (unless the run ended: nobody reads any more);
+	// (2) real batch time-outs ("system" mode): wait until no timer is armed and every goroutine is blocked - then nothing
+	// can move any more. A pipeline that is wedged for good is hx's business (no-progress detector), not a verdict made here.
+	for {
+		rd.mu.Lock()
+		q := rd.queued
+		rd.mu.Unlock()
+		if !(retried && q > 0 && !runEnded()) && sysT.pending() == 0 {
 			quiesce()
-			if d := delivered(); d > last {
-				last = d
-				t0 = time.Now()
+			rd.mu.Lock()
+			q = rd.queued
+			rd.mu.Unlock()
+			if !(retried && q > 0 && !runEnded()) && sysT.pending() == 0 {
+				break
 			}
 		}
-		// let stale time-outs drain
-		time.Sleep(time.Duration(p.DelayUS)*time.Microsecond + 200*time.Microsecond)
-		quiesce()
+		time.Sleep(200 * time.Microsecond) // pacing only
 	}
 
 	rd.mu.Lock()
@@ -892,11 +924,8 @@ func runCase(p params, ops []opJ) (*observed, error) {
 	cancel()
 	close(rd.inbox)
 	stopped := false
-	select {
-	case <-startDone:
-		stopped = true
-	case <-time.After(5 * time.Second):
-	}
+	<-startDone // Start returns right after the cancellation (its shutdown path does not block); no deadline
+	stopped = true
 	if stopped {
 		// the runner never closes outputStream nor stops its errChan listener: let those goroutines go, otherwise every
 		// later quiescence barrier has to look at them
@@ -1033,7 +1062,7 @@ func (eng) Execute(mode string, c *hx.Case) (*hx.Result, error) {
 	}
 	delayB := p.Timer == "fake" || p.Timer == "system"
 	term := fmt.Sprintf("RC %d %d %d %s %s %s %s %s %s %s", p.NOps, p.KGC, p.MaxSize, hx.CoqBool(delayB),
-		hx.CoqList(items, "ritem"), hx.CoqList(opsT, "list (list ev)"), hx.CoqList(wmT, "list N"), hx.CoqBool(obs.Aborted), hx.CoqBool(obs.Failed), hx.CoqBool(obs.Overlap || obs.TimedOut))
+		hx.CoqList(items, "ritem"), hx.CoqList(opsT, "list (list ev)"), hx.CoqList(wmT, "list N"), hx.CoqBool(obs.Aborted), hx.CoqBool(obs.Failed), hx.CoqBool(obs.Overlap))
 	if mode == "c05" {
 		// routing only: every delivered keyed event as (key, operator it arrived at)
 		var kos []string
@@ -1090,7 +1119,6 @@ func (eng) Execute(mode string, c *hx.Case) (*hx.Result, error) {
 	add(obs.ExtraReads > 0, "read_after_end_of_input")
 	add(p.KBGate, "kbgate")
 	add(p.OpGate, "opgate")
-	add(obs.TimedOut, "timed_out")
 	return &hx.Result{Term: term, Nontrivial: p.NOps >= 2 && nke >= 4 && sameKey, Tags: tags, Observed: obs}, nil
 }
 
